@@ -439,7 +439,7 @@ theorem alookup_none_of_not_mem (k : String) (l : AL α) (h : k ∉ akeys l) : a
     exact ih h.2
 
 theorem alookup_addAll (k : String) (d s : AL α) (hs : NoDup s) :
-    alookup k (addAll d s) = match alookup k s with | some v => some v | none => alookup k d := by
+    alookup k (addAll d s) = (alookup k s).or (alookup k d) := by
   induction s generalizing d with
   | nil => rfl
   | cons x xs ih =>
@@ -450,6 +450,7 @@ theorem alookup_addAll (k : String) (d s : AL α) (hs : NoDup s) :
     · subst hk
       simp only [if_true]
       rw [alookup_addAll_none k' _ xs (alookup_none_of_not_mem k' xs hs.1), alookup_aset_self]
+      rfl
     · simp only [hk, if_false]
       rw [ih _ hs.2, alookup_aset_ne k' k v (Ne.symm hk)]
 
@@ -695,6 +696,80 @@ theorem csaBack_prev (c : Cfg) (cm1 xrA : KObj) (s1 : St) (w : List Write) :
   · rfl
   · simp only []
     split <;> rfl
+
+
+theorem NoDup_setAnn (cur : Option (AL String)) (k v : String) (h : NoDup (cur.getD [])) :
+    NoDup ((setAnn cur k v).getD []) := by
+  cases cur with
+  | none => simp [setAnn, addAnn, NoDup, akeys]
+  | some a =>
+    simp only [setAnn, addAnn, addAll, Option.getD_some] at h ⊢
+    exact NoDup_aset k v a h
+
+theorem NoDup_nonEmptyUnreserved (a : Option (AL String)) (h : NoDup (a.getD [])) :
+    NoDup ((nonEmptyUnreserved a).getD []) := by
+  cases a with
+  | none => simp [nonEmptyUnreserved, NoDup, akeys]
+  | some a =>
+    simp only [nonEmptyUnreserved, Option.getD_some] at h ⊢
+    split
+    · simp [NoDup, akeys]
+    · exact NoDup_filter _ a h
+
+
+/-! ### what the stored XR receives -/
+
+/-- what server-side apply stores for a key the configuration sets (no duplicate keys) -/
+theorem ssaMergeF_set (k : String) (v : J) (cfg : AL J) :
+    ∀ d : AL J, NoDup cfg → alookup k cfg = some v →
+      alookup k (ssaMergeF d cfg) = some (ssaMergeV (alookup k d) v) := by
+  induction cfg with
+  | nil => intro d _ h; simp at h
+  | cons x xs ih =>
+    obtain ⟨k', v'⟩ := x
+    intro d hnd h
+    simp only [NoDup, akeys, List.map_cons, List.nodup_cons] at hnd
+    simp only [alookup] at h
+    rw [ssaMergeF]
+    split at h
+    · rename_i hk
+      cases h; subst hk
+      rw [ssaMergeF_untouched k' xs _ (alookup_none_of_not_mem k' xs hnd.1), alookup_aset_self]
+    · rename_i hk
+      rw [ih _ hnd.2 h, alookup_aset_ne k' k _ (Ne.symm hk)]
+
+theorem NoDup_specToXR (c : Cfg) (cm : KObj) (manual : Bool) (cs : AL J) (h : NoDup cs) :
+    NoDup (specToXR c cm manual cs) := by
+  unfold specToXR withoutKeys
+  exact NoDup_aset _ _ _ (NoDup_filter _ cs h)
+
+/-- a non-object value is stored as is -/
+theorem ssaMergeV_atom (d : Option J) (v : J) (hv : ∀ l, v ≠ .obj l) : ssaMergeV d v = v := by
+  cases v with
+  | obj l => exact absurd rfl (hv l)
+  | _ => rfl
+
+/-- the stored spec after a server-side apply of an object spec -/
+theorem applySSA_spec_set (cur : Option KObj) (prev : Option KObj) (p : KObj) (pf : AL J) (k : String) (v : J)
+    (hp : p.spec = some (.obj pf)) (hnd : NoDup pf) (hk : alookup k pf = some v) (hv : ∀ l, v ≠ .obj l) :
+    alookup k (applySSA cur prev p).specFields = some v := by
+  cases cur with
+  | none =>
+    simp only [applySSA, KObj.specFields, hp, objFields]; exact hk
+  | some x =>
+    simp only [applySSA, KObj.specFields, hp]
+    cases hx : x.spec with
+    | none =>
+      simp only [ssaMergeV, objFields]
+      rw [ssaMergeF_set k v pf _ hnd hk, ssaMergeV_atom _ v hv]
+    | some w =>
+      cases w with
+      | obj xs =>
+        simp only [ssaMergeV, objFields]
+        rw [ssaMergeF_set k v pf _ hnd hk, ssaMergeV_atom _ v hv]
+      | _ =>
+        simp only [ssaMergeV, objFields]
+        rw [ssaMergeF_set k v pf _ hnd hk, ssaMergeV_atom _ v hv]
 
 
 end Xp.C07
